@@ -49,6 +49,9 @@ TCursor ==
 TCmapIter == IsEvent("cmapiter") /\ Ev.n <= (IF Ev.fmt = 4 THEN 65536 ELSE 35)
 TPacked == IsEvent("packed") /\ Ev.outcome \in {"value", "error"} /\ Ev.yields <= Ev.npoints
 
+\* hostile layout tables of ContextClosure.tla: the closure / coverage helpers answer with a value or an error
+TLayHostile == IsEvent("layhostile") /\ Ev.outcome \in {"value", "error"}
+
 TInit == l = 1
-TraceSpec == TInit /\ [][TCursor \/ TCmapIter \/ TPacked]_l
+TraceSpec == TInit /\ [][TCursor \/ TCmapIter \/ TPacked \/ TLayHostile]_l
 =============================================================================
